@@ -97,7 +97,7 @@ def _stmt_call(st: ast.stmt) -> Optional[ast.Call]:
     v = None
     if isinstance(st, (ast.Expr, ast.Return)):
         v = st.value
-    elif isinstance(st, ast.Assign) and len(st.targets) == 1 and isinstance(st.targets[0], ast.Name):
+    elif isinstance(st, ast.Assign) and len(st.targets) == 1 and isinstance(st.targets[0], (ast.Name, ast.Tuple, ast.List)):
         v = st.value
     elif isinstance(st, ast.AnnAssign) and isinstance(st.target, ast.Name):
         v = st.value
